@@ -86,7 +86,7 @@ def run_case_inner(c):
     try:
         if c['writer'] == 'table':
             out, warns = [], []
-            rbql.query_table(c['q'], A, out, warns, B)
+            rbql.query_table(c['q'], A, out, warns, B, c.get('hdrA'), c.get('hdrB'), [])
             handed = [id(r) for r in out]
             for r in out:
                 for i in range(len(r)):
